@@ -132,6 +132,76 @@ var caseOverride int
 
 func register(p *Prop) { props[p.ID] = p }
 
+// judgeOp: a state leak seen by the bystander calls is a failure of whatever property the case belongs
+// to (its functions then depend on what was called before them); everything else is the property's
+// own judge.
+func judgeOp(p *Prop, op, impl, model string) Verdict {
+	if strings.HasPrefix(impl, "stateleak ") {
+		return Verdict{Nontrivial: true, CorrOK: true, OracleFail: strings.TrimPrefix(impl, "stateleak "), Sig: "stateleak"}
+	}
+	return p.Judge(op, impl, model)
+}
+
+// bystanders: calls of functions that are NOT option setters, made by the harnesses right after they
+// have set the options of a case (one case in three, decided by the case line): documents that
+// decode and documents that do not, encoders, queries, BeautifyXml, a bulk handler.  None of them
+// may change an option variable (hook dump before = after); what the case observes afterwards is
+// compared with the model as usual, so a call that disturbs a later one is seen there as well.
+var curOp string
+var stateLeak string
+
+func bystanders() {
+	if hashStr(curOp)%3 != 0 {
+		return
+	}
+	before := dumpOptions()
+	good := []byte(`<a x="1"><b-c>1</b-c><d>t &amp; u</d><!--c--></a>`)
+	for _, d := range [][]byte{good, []byte("<a><b></a>"), []byte("<a>"), []byte("</a>"), nil} {
+		mxj.BeautifyXml(d, "", " ")
+		mxj.NewMapXml(d, true)
+		mxj.NewMapXmlSeq(d)
+		mxj.NewMapXmlReader(bytes.NewReader(d))
+		mxj.HandleXmlReader(bytes.NewReader(d), func(mxj.Map) bool { return true }, func(error) bool { return false })
+	}
+	for _, d := range []string{`{"a":{"b":[1,"<&>"]}}`, `{"a":`, `[1]`, ``} {
+		mxj.NewMapJson([]byte(d))
+		mxj.NewMapJsonReader(strings.NewReader(d))
+		mxj.HandleJsonReader(strings.NewReader(d), func(mxj.Map) bool { return true }, func(error) bool { return false })
+	}
+	m := mxj.Map{"a": map[string]interface{}{"-k": "v", "#text": "t<", "b": []interface{}{"x", map[string]interface{}{"c": 1.5}}}, "z": nil}
+	m.Xml()
+	m.XmlIndent("", " ")
+	m.Json(true)
+	m.JsonIndent("", " ")
+	m.Copy()
+	m.LeafNodes()
+	m.ValuesForPath("a.b.c", "c:1.5")
+	m.ValuesForKey("c", "!x:*")
+	m.PathsForKey("c")
+	m.NewMap("a.b:q")
+	mxj.AnyXml([]interface{}{"s", 1.0, nil})
+	mxj.Map{"bad": make(chan int)}.Json()
+	mxj.Map{"a": map[string]interface{}{"-k": []interface{}{1}}}.Xml()
+	if ms, err := mxj.NewMapXmlSeq(good); err == nil {
+		ms.Xml()
+		ms.XmlIndent("", " ")
+	}
+	if after := dumpOptions(); after != before && stateLeak == "" {
+		stateLeak = "a function that is not an option setter changed the option variables: " + optDiff(before, after)
+	}
+}
+
+func optDiff(a, b string) string {
+	x, y := strings.Fields(a), strings.Fields(b)
+	var d []string
+	for i := range x {
+		if i < len(y) && x[i] != y[i] {
+			d = append(d, x[i]+" -> "+y[i])
+		}
+	}
+	return strings.Join(d, ", ")
+}
+
 // safeExec runs the implementation under recover; a panic is an observation.
 func safeExec(p *Prop, op string) string {
 	if hung {
@@ -148,7 +218,11 @@ func safeExec(p *Prop, op string) string {
 			done <- out
 		}()
 		applyAmbient(p, op)
+		curOp, stateLeak = op, ""
 		out = p.Exec(op)
+		if stateLeak != "" && !strings.HasPrefix(out, "panic") {
+			out = "stateleak " + stateLeak
+		}
 	}()
 	select {
 	case out := <-done:
@@ -306,7 +380,7 @@ func evaluate(p *Prop, driver string, ops []string, known []knownFinding, res *R
 		case impl[i] == "skipped-after-hang":
 			v = Verdict{Skipped: true}
 		default:
-			v = p.Judge(op, impl[i], model[i])
+			v = judgeOp(p, op, impl[i], model[i])
 		}
 		res.Evaluations++
 		for _, t := range v.Tags {
